@@ -101,6 +101,10 @@ constexpr char const* kClsNl = "named.newline_in_value";
 
 Params g_params;
 bool g_excl_f4 = false, g_excl_f5 = false, g_excl_nl = false;
+// F24: the JSON object of a LOG_RUNTIME_METADATA statement carries "{}" as its "message" member instead of the original
+// template (the backend replaces the statement's metadata by one it makes up from file, line and function)
+constexpr char const* kClsF24 = "named.runtime_metadata_json_template";
+bool g_excl_f24 = false;
 
 // ---- quill objects (process lifetime) ----
 quill::ManualBackendWorker* g_mbw = nullptr;
@@ -678,6 +682,56 @@ void gen_template(Choices& c, Slot& s, Report& r, TplFeat& f)
   s.used = true;
 }
 
+// A second call site with the SAME template text as a slot that is in use, but a different number of arguments (its
+// signature starts with the same types, so every spec stays valid): the backend caches per template STRING, and what it
+// caches must not depend on the argument count of the first statement it saw.
+bool clone_template(Choices& c, Slot& s, unsigned self)
+{
+  auto const& cat = sigs();
+  std::vector<std::pair<unsigned, unsigned>> cand; // (other slot, signature)
+  for (unsigned o = 0; o < 6; ++o)
+  {
+    if (o == self || !g_slots[o].used || g_slots[o].nph == 0) continue;
+    Slot const& src = g_slots[o];
+    auto const& ot = cat[src.sig].types;
+    for (unsigned t = 0; t < cat.size(); ++t)
+    {
+      auto const& tt = cat[t].types;
+      if (t == src.sig || tt.size() < src.nph || tt.size() == ot.size()) continue;
+      bool same = true;
+      for (size_t k = 0; k < src.nph; ++k) if (tt[k] != ot[k]) same = false;
+      if (same) cand.emplace_back(o, t);
+    }
+  }
+  if (cand.empty()) return false;
+  auto const pick = cand[c.pick(static_cast<uint32_t>(cand.size()))];
+  Slot const& src = g_slots[pick.first];
+  s.sig = pick.second;
+  s.nph = src.nph;
+  s.names = src.names;
+  s.specs = src.specs;
+  s.tpl = src.tpl;
+  s.twin = src.twin;
+  s.has_escaped = src.has_escaped;
+  s.has_spec = src.has_spec;
+  s.level = static_cast<int>((4 + c.pick(9)) % 9);
+  unsigned const line = 1 + c.pick(999);
+  std::snprintf(s.srcloc, sizeof s.srcloc, "clone.cpp:%u", line);
+  s.file_name = "clone.cpp";
+  s.line = std::to_string(line);
+  std::snprintf(s.func, sizeof s.func, "fn_clone");
+  std::memcpy(s.fmt, s.tpl.c_str(), s.tpl.size() + 1);
+  s.md.emplace(s.srcloc, s.func, s.fmt, nullptr, kLevels[s.level], quill::MacroMetadata::Event::Log);
+  {
+    std::string const rt = s.tpl + QUILL_MAGIC_SEPARATOR "{}" QUILL_MAGIC_SEPARATOR "{}" QUILL_MAGIC_SEPARATOR "{}";
+    std::memcpy(s.fmt_rt, rt.c_str(), rt.size() + 1);
+    s.md_rt.emplace("[placeholder]", "[placeholder]", s.fmt_rt, nullptr, quill::LogLevel::Dynamic,
+                    quill::MacroMetadata::Event::LogWithRuntimeMetadata);
+  }
+  s.used = true;
+  return true;
+}
+
 // ---- expectation of one statement ----
 struct Expect
 {
@@ -1145,7 +1199,7 @@ std::string compare_all(std::vector<Expect> const& exps, std::string const& json
         if (obj[q].first == f.first)
         {
           found = true;
-          if (e.runtime && f.first == "message") break; // see above: the template of the made-up metadata is not claimed
+          if (e.runtime && f.first == "message" && g_excl_f24) { r.count(std::string{"excluded."} + kClsF24); break; } // known finding F24
           if (obj[q].second != f.second)
             return at + "member \"" + f.first + "\" is \"" + esc(obj[q].second, 200) + "\", expected \"" + esc(f.second, 200) + "\"";
           break;
@@ -1198,6 +1252,7 @@ void harness_init(Params const& p)
   g_excl_f4 = excluded(p, kClsF4);
   g_excl_f5 = excluded(p, kClsF5);
   g_excl_nl = excluded(p, kClsNl);
+  g_excl_f24 = excluded(p, kClsF24);
 
   check_macro_table();
 
@@ -1261,7 +1316,7 @@ void run_case(Choices& c, Report& r)
   std::vector<Expect> exps;
   std::vector<std::string> seen_order;      // template text per statement
   bool nontrivial_shape = false, reused_after_other = false;
-  bool any_escaped = false, any_spec = false, any_extra = false, any_zero = false, any_ten = false, any_logj = false, any_runtime = false;
+  bool any_escaped = false, any_spec = false, any_extra = false, any_zero = false, any_ten = false, any_logj = false, any_runtime = false, any_clone = false;
   bool any_rewrite = false, any_no_string = false, any_polled_mid = false, any_batch = false;
   TplFeat tf;
   ValFlags vf;
@@ -1322,7 +1377,13 @@ void run_case(Choices& c, Report& r)
         s.used = false;
         any_rewrite = true;
       }
-      if (!s.used) gen_template(c, s, r, tf);
+      if (!s.used)
+      {
+        bool cloned = false;
+        if (rare(c, 4)) cloned = clone_template(c, s, si);
+        if (cloned) { any_clone = true; }
+        else gen_template(c, s, r, tf);
+      }
       auto const& entry = sigs()[s.sig];
       size_t const arity = entry.types.size();
       std::vector<Val> vals;
@@ -1447,6 +1508,7 @@ void run_case(Choices& c, Report& r)
   if (any_json_parsed) r.label("json_checked");
   if (any_logj) r.label("logj_macro_call_site");
   if (any_runtime) r.label("runtime_metadata_form_with_named_args");
+  if (any_clone) r.label("same_template_text_with_another_argument_count");
   if (any_rewrite) r.label("metadata_storage_rewritten_after_drain");
   if (any_no_string) r.label("no_string_argument_sanitiser_off");
   if (any_polled_mid) r.label("drained_between_statements");
@@ -1495,6 +1557,27 @@ bool probe_known_class(std::string const& cls, std::string& what)
       what = "template \"{a} {b}\" with (\"p\\x01\\x02\\x03q\", 5): named_args " +
         (p.recs.size() == 1 ? show_pairs(p.recs[0].named) : std::string{"<missing>"}) + ", expected " + show_pairs(exp) +
         ": a value containing the magic separator is split";
+      return true;
+    }
+    return false;
+  }
+  if (cls == kClsF24)
+  {
+    reset_case_state();
+    Slot& s = g_slots[0];
+    std::string const rt = std::string{"user {name} id {id}"} + QUILL_MAGIC_SEPARATOR "{}" QUILL_MAGIC_SEPARATOR "{}" QUILL_MAGIC_SEPARATOR "{}";
+    std::memcpy(s.fmt_rt, rt.c_str(), rt.size() + 1);
+    s.md_rt.emplace("[placeholder]", "[placeholder]", s.fmt_rt, nullptr, quill::LogLevel::Dynamic,
+                    quill::MacroMetadata::Event::LogWithRuntimeMetadata);
+    g_lg[1]->log_statement<false, true>(quill::LogLevel::Info, &*s.md_rt, std::string{"bob"}, 7, "probe.cpp", 12, "probe_fn");
+    drain_and_flush();
+    std::string const json = read_json_file_and_truncate();
+    g_recs.clear();
+    g_notifier_msgs.clear();
+    g_bw->_named_args_templates.clear();
+    if (json.find("\"message\":\"user {name} id {id}\"") == std::string::npos)
+    {
+      what = "LOG_RUNTIME_METADATA(..., \"user {name} id {id}\", \"bob\", 7): the JSON object does not carry the original message template: " + esc(json, 300);
       return true;
     }
     return false;
